@@ -4,6 +4,7 @@ import (
 	"fmt"
 	"io"
 	"math/rand"
+	"strconv"
 	"strings"
 	"sync"
 	"sync/atomic"
@@ -50,14 +51,14 @@ func (p Params) N() int { return p.Voters + p.NonVoters + p.Spares }
 
 // Inst is one incarnation of a server.
 type Inst struct {
-	n      *Node
-	ep     int
-	r      *raft.Raft
-	tr     *Trans
-	h      *Handle
-	fsm    *RecFSM
-	notify chan bool
-	stopC  chan struct{}
+	n       *Node
+	ep      int
+	r       *raft.Raft
+	tr      *Trans
+	h       *Handle
+	fsm     *RecFSM
+	notify  chan bool
+	stopC   chan struct{}
 	wg      sync.WaitGroup
 	shut    atomic.Bool // Shutdown() was called deliberately (clean shutdown)
 	retired atomic.Bool // the incarnation crashed and is being torn down in the background
@@ -285,7 +286,11 @@ func (c *Cluster) Start(nd *Node) bool {
 	in.r = rr.r
 	c.insts.Store(rr.r, in)
 	cfgNow := rr.r.GetConfiguration().Configuration()
-	nd.disk.LogIfLive(ep, Ev{K: "Lstarted", A: rr.r.CurrentTerm(), B: rr.r.LastIndex(), C: rr.r.CommitIndex(), D: rr.r.AppliedIndex(), X: CfgString(cfgNow)})
+	st := rr.r.Stats()
+	u := func(k string) uint64 { v, _ := strconv.ParseUint(st[k], 10, 64); return v }
+	// E/F: the snapshot position the new incarnation works from; Y: the last log entry it knows
+	nd.disk.LogIfLive(ep, Ev{K: "Lstarted", A: rr.r.CurrentTerm(), B: rr.r.LastIndex(), C: rr.r.CommitIndex(), D: rr.r.AppliedIndex(), X: CfgString(cfgNow),
+		E: u("last_snapshot_index"), F: u("last_snapshot_term"), Y: st["last_log_index"] + "/" + st["last_log_term"]})
 
 	disk := nd.disk
 	rr.r.RegisterObserver(raft.NewObserver(nil, false, func(o *raft.Observation) bool {
